@@ -136,7 +136,9 @@ Inductive obs :=
 | OCode (who : pid) (k : kind) (cur : option pid)
 | ORun (t : tid)
 | ORet
-| OExt.
+| OExt
+| OEnter (t : tid) (p : pid) (before : list pid)   (* task t enters `with p._process_scope()`; PROCESS_STACK just before *)
+| OExit (t : tid) (p : pid) (after : list pid).    (* task t has left that block; PROCESS_STACK just after *)
 
 Record cfg := mk_cfg {
   c_procs : list pstate;
@@ -383,7 +385,9 @@ Definition effect_of (fl : bool) (defs : list pdef) (ps : list pstate) (ntasks :
       let next' := if ps_raised s then LfExcepted else next in
       if terminated l then eff0 (setp ps p s0)
       else if ps_killing s then
-        eff0 (setp ps p (s0 <| ps_life := LfKilled |>)) <| e_code := [IFire p (transition_hooks l LfKilled)] |>
+        (* do_kill: a step that failed ends EXCEPTED, the failure is not replaced by the kill *)
+        let k := if ps_raised s then LfExcepted else LfKilled in
+        eff0 (setp ps p (s0 <| ps_life := k |>)) <| e_code := [IFire p (transition_hooks l k)] |>
       else if ps_pausing s then
         (* _do_pause(next_state): the transition, if the step produced a next state, then on_pausing, on_paused *)
         match ps_wfut s, l with
@@ -391,10 +395,9 @@ Definition effect_of (fl : bool) (defs : list pdef) (ps : list pstate) (ntasks :
             eff0 (setp ps p (s0 <| ps_wfut := WPending |> <| ps_paused := true |>))
               <| e_code := [IFire p [HPausing; HPaused]] |>
         | _, _ =>
-            (* when next' is terminal there is nothing left to pause *)
-            eff0 (setp ps p (s0 <| ps_life := next' |> <| ps_wfut := WPending |> <| ps_paused := negb (terminated next') |>))
-              <| e_code := IFire p (transition_hooks l next')
-                           :: (if terminated next' then [] else [IFire p [HPausing; HPaused]]) |>
+            (* also when next' is terminal: the process then reports `paused` although terminated (D20) *)
+            eff0 (setp ps p (s0 <| ps_life := next' |> <| ps_wfut := WPending |> <| ps_paused := true |>))
+              <| e_code := [IFire p (transition_hooks l next'); IFire p [HPausing; HPaused]] |>
         end
       else
         eff0 (setp ps p (s0 <| ps_life := next' |> <| ps_wfut := WPending |>))
@@ -443,7 +446,10 @@ Definition apply_effect (c : cfg) (t : tid) (tk : task) (fr : frame) (frs : list
   let tasks2 := map (wake_task (e_wake e)) tasks1 in
   mk_cfg (e_procs e) tasks2
          (if keeps_running (e_stat e) then c_running c else tl (c_running c))
-         (rev (e_emit e) ++ c_trace c) (c_bad c) (c_assert c).
+         (match e_push e with
+          | None => rev (e_emit e) ++ c_trace c
+          | Some (p, _) => OEnter t p (t_ctx tk) :: rev (e_emit e) ++ c_trace c
+          end) (c_bad c) (c_assert c).
 
 Definition top_is (p : pid) (s : list pid) : bool :=
   match top s with Some q => Nat.eqb q p | None => false end.
@@ -464,6 +470,7 @@ Definition micro (fl : bool) (defs : list pdef) (c : cfg) (t : tid) : cfg :=
               | Some p =>      (* the finally clause of _process_scope *)
                   if top_is p (t_ctx tk)
                   then c <| c_tasks := upd t (tk <| t_frames := frs |> <| t_ctx := removelast (t_ctx tk) |>) (c_tasks c) |>
+                         <| c_trace ::= cons (OExit t p (removelast (t_ctx tk))) |>
                   else c <| c_tasks := upd t (tk <| t_frames := frs |>) (c_tasks c) |> <| c_assert ::= S |>
               end
           | i :: code' =>
@@ -566,6 +573,45 @@ Definition stack_of (base : list pid) (frs : list frame) : list pid := base ++ r
 
 (* for which kinds of code the property is claimed: the scoped kinds, and all kinds once hooks are dispatched in scope *)
 Definition must_hold (fl : bool) (k : kind) : bool := scoped k || fl.
+
+(* the scope events of a chronological log are well bracketed per task, and every exit restores the stack that
+   the matching entry found: [open] holds the entries not yet matched, most recent first *)
+Fixpoint take_first (t : tid) (open : list (tid * (pid * list pid))) : option ((pid * list pid) * list (tid * (pid * list pid))) :=
+  match open with
+  | [] => None
+  | (t', e) :: r =>
+      if Nat.eqb t' t then Some (e, r)
+      else match take_first t r with
+           | Some (e', r') => Some (e', (t', e) :: r')
+           | None => None
+           end
+  end.
+
+Fixpoint list_nat_eqb (a b : list nat) : bool :=
+  match a, b with
+  | [], [] => true
+  | x :: a', y :: b' => Nat.eqb x y && list_nat_eqb a' b'
+  | _, _ => false
+  end.
+
+Definition step_open (open : list (tid * (pid * list pid))) (o : obs) : option (list (tid * (pid * list pid))) :=
+  match o with
+  | OEnter t p s => Some ((t, (p, s)) :: open)
+  | OExit t p s =>
+      match take_first t open with
+      | Some ((p', s'), open') => if Nat.eqb p p' && list_nat_eqb s s' then Some open' else None
+      | None => None
+      end
+  | _ => Some open
+  end.
+
+Fixpoint run_open (open : list (tid * (pid * list pid))) (l : list obs) : option (list (tid * (pid * list pid))) :=
+  match l with
+  | [] => Some open
+  | o :: r => match step_open open o with Some open' => run_open open' r | None => None end
+  end.
+
+Definition bracketed (l : list obs) : Prop := run_open [] l <> None.
 
 (* what the correspondence compares: the chronological log *)
 Definition log_of (c : cfg) : list obs := rev (c_trace c).
